@@ -121,9 +121,15 @@ theorem step_wf_quiescent (s : Sched) (ev : Ev) (h : WF s) (hq : Quiescent s) :
       cases destErr with
       | true =>
         simp only [if_true]
-        have hw : WF { s with tl := dropInService s.tl, cur := s.primary, cb := none, idle := false } :=
-          ⟨hdrop.1, (by intro x; rw [hdrop.2] at x; cases x), (by intro x; cases x)⟩
-        exact ⟨(settle_spec _ _ hw (fuel_ok _)).wf, (settle_spec _ _ hw (fuel_ok _)).quiescent⟩
+        by_cases hc : s.cur = s.primary
+        · simp only [hc, if_true]
+          refine ⟨⟨hdrop.1, (by intro x; rw [hdrop.2] at x; cases x), ?_⟩, Or.inl rfl⟩
+          intro x
+          exact ⟨rfl, rfl, hdrop.2⟩
+        · simp only [hc, if_false]
+          have hw : WF { s with tl := dropInService s.tl, cur := s.primary, cb := none, idle := false } :=
+            ⟨hdrop.1, (by intro x; rw [hdrop.2] at x; cases x), (by intro x; cases x)⟩
+          exact ⟨(settle_spec _ _ hw (fuel_ok _)).wf, (settle_spec _ _ hw (fuel_ok _)).quiescent⟩
       | false =>
         simp only [Bool.false_eq_true, if_false]
         refine ⟨⟨hdrop.1, (by intro x; rw [hdrop.2] at x; cases x), ?_⟩, Or.inl rfl⟩
@@ -383,12 +389,16 @@ theorem step_keys (s : Sched) (ev : Ev) (h : WF s) (hexf : s.exited = false) :
       cases destErr with
       | true =>
         simp only [if_true]
-        have hw : WF { s with tl := dropInService s.tl, cur := s.primary, cb := none, idle := false } :=
-          ⟨hdrop.1, (by intro x; rw [hdrop.2] at x; cases x), (by intro x; cases x)⟩
-        have sp := settle_spec _ _ hw (fuel_ok _)
-        refine ⟨?_, by rw [sp.serial]; simp [newKeys]⟩
-        refine List.Sublist.trans (sp.suffix.sublist.map key) ?_
-        simpa [newKeys] using dropInService_keys s.tl
+        by_cases hc : s.cur = s.primary
+        · simp only [hc, if_true]
+          exact ⟨by simpa [newKeys] using dropInService_keys s.tl, by simp [newKeys]⟩
+        · simp only [hc, if_false]
+          have hw : WF { s with tl := dropInService s.tl, cur := s.primary, cb := none, idle := false } :=
+            ⟨hdrop.1, (by intro x; rw [hdrop.2] at x; cases x), (by intro x; cases x)⟩
+          have sp := settle_spec _ _ hw (fuel_ok _)
+          refine ⟨?_, by rw [sp.serial]; simp [newKeys]⟩
+          refine List.Sublist.trans (sp.suffix.sublist.map key) ?_
+          simpa [newKeys] using dropInService_keys s.tl
       | false =>
         simp only [Bool.false_eq_true, if_false]
         exact ⟨by simpa [newKeys] using dropInService_keys s.tl, by simp [newKeys]⟩
